@@ -29,6 +29,7 @@ ASSUMPTIONS = [
     "eps_table = max over [min m_f, m_i] of |D(m_i) - D(m)|, D(m) = integral_{m_f}^{m} alpha_i/alpha dm' - (rho(m) - rho_f)/rho_i, from the raw table columns with the documented scaling m (c mu z / 2p)(p_i), computed by the harness (zero for a consistent continuous table): in the continuum the two recoveries differ by at most eps_table (DESIGN.md C03)",
     "E_t = 1/2 sum_i dt_i |rate_{i+1} - rate_i|: backward Euler balances mass with the right-endpoint rule while the library integrates the same rates with the trapezoid rule",
     "first-order discretisation: |flux - in-place| <= C ceiling (1/nx + theta) + E_t + eps_table with C = 3 and theta the largest per-step change of the field relative to the drawdown weighted by the diffusivity variation (time-linearisation of the lagged diffusivity); calibrated on the repaired tree",
+    "plateau: when the a-priori relaxation bound (C01, from the time grid and the schedule only) is below 1e-6 of the drawdown, in-place recovery must end at 1 - rho(p_last)/rho(p_i) within (C/nx + 1e-4) of the ceiling (first-order: node 0 starts at the frac-face value), p_last the frac-face pressure used by the last steps; flux recovery within the gap model of it",
     "monotonicity and ceiling tolerances: 1e-6 of the ceiling plus a rounding model (stencil cancellation ~ eps |m_i| nx integrated over the step; sums over nx nodes ~ eps nx); a wrong sign or stencil gives decreases of the order of the ceiling itself",
 ]
 LEVEL_TEXT = (
@@ -169,6 +170,20 @@ def check_run(case, res):
         # 1 - sum(rho)/sum(rho_0) over nx nodes carries a rounding error of ~ eps nx in absolute terms
         res.check("C03/in-place-recovery-non-decreasing", max(float(np.max(drop)), 0.0), 1e-6 * ceiling + 1e-12 + 512 * np.finfo(float).eps * nx, f"in-place recovery decreases by more than node 0 regains: {float(np.max(drop))!r} (ceiling {ceiling!r});")
     rb = c01.relaxation_bound(r) if r.constant_drawdown and nt > 1 else float("inf")
+    # plateau: once the run has relaxed to the frac-face value used by its last steps (a-priori bound from the time
+    # grid and the schedule, not from the field) the fluid in place is that of a reservoir at that pressure, so
+    # in-place recovery is 1 - rho(p_last)/rho(p_i) (ideal gas: 1 - p_last/p_i) whatever path the schedule took
+    if nt > 2 and case["cls"] == "single":
+        k0, m_last = c01.final_level(r)
+        rb_t = c01.relaxation_bound(r, tail=True)
+        res.labels["plateau_checked"] = bool(rb_t < 1e-6 * r.d)
+        if rb_t < 1e-6 * r.d:
+            plateau = 1.0 - float(np.interp(m_last, ms, rho)) / rho_i
+            # node 0 starts at the frac-face value, so the discrete mass in place differs from the continuum's by O(1/nx)
+            tol_p = C_GAP * ceiling / nx + 1e-4 * ceiling + 1e-12 + 512 * np.finfo(float).eps * nx
+            res.check("C03/plateau-at-final-frac-face-pressure", abs(float(rfd[-1]) - plateau), tol_p, f"relaxed run (bound {rb_t!r} of d={r.d!r}; schedule constant from level {k0} of {nt - 1}): in-place recovery ends at {float(rfd[-1])!r}, 1 - rho(p_last)/rho(p_i) = {plateau!r} (ceiling {ceiling!r}, nx={nx});")
+            if admissible < ceiling:
+                res.check("C03/plateau-at-final-frac-face-pressure", max(abs(float(rff[-1]) - plateau) - e_t - eps, 0.0), admissible - e_t - eps + tol_p, f"relaxed run: flux recovery ends at {float(rff[-1])!r}, plateau 1 - rho(p_last)/rho(p_i) = {plateau!r} (ceiling {ceiling!r}, nx={nx}, E_t={e_t!r});")
     res.labels["gap_oracle"] = "effective" if admissible < 0.5 * ceiling else "vacuous"
     res.nontrivial = bool(nx >= 5 and (rb < 1e-2 * r.d or nt >= 51) and admissible < 0.5 * ceiling)
     res.labels["eps_table_over_ceiling"] = "0" if eps < 1e-9 * ceiling else ("<1e-3" if eps < 1e-3 * ceiling else ">=1e-3")
